@@ -8,10 +8,10 @@ HERE = os.path.dirname(os.path.abspath(__file__))
 A = "simnet"
 B = "unit"
 CHECKS = {
-    "C01": (A, "4.1", "offline event-log monitor (conservation of tun frames) over whole-program simulated runs under ASan/UBSan",
+    "C01": (A, "4.1", "offline event-log monitor (conservation of tun frames) over whole-program simulated runs under ASan/UBSan, plus a reassembly-conservation monitor on hooked state (users[].inpacket.len never exceeds what the client's own transfer state says it has handed out, at every select())",
             "held on every executed scenario: real client(s) and server on the simulated OS through a seeded fault relay; each tun_write compared byte-for-byte with earlier tun_reads",
             "trusts the shim's fidelity to Linux, gcc sanitizers; zlib's checksum hides most mis-reassembly (C02 catches the resulting loss)"),
-    "C02": (A, "4.2", "offline sequence monitor in virtual time (exactly-once/in-order on a clean path incl. packets sized for exactly 2/15/16 fragments with the programs' own zlib, bounded recovery after a fault prefix); a third of the runs with scheduling latency (one select() reports several inputs)",
+    "C02": (A, "4.2", "offline sequence monitor in virtual time (exactly-once/in-order on a clean path incl. packets sized for exactly 2/15/16 fragments with the programs' own zlib, bounded recovery after a fault prefix); a third of the runs with scheduling latency (one select() reports several inputs); fault classes incl. 25-38 s of total silence from the start of the tunnel and resolvers that change the letter case of some names; a second session exchanging client-to-client packets",
             "held on every executed scenario; liveness restated as bounded progress B = 30 virtual s; fault prefixes are seeded samples of up to 40 s",
             "B chosen from the code's timer chains; 'accepted' = frame whose transmission the reader started (the client's documented congestion drop is not acceptance)"),
     "C03": (A, "4.3", "online shadow-authentication monitor (independent MD5) over adversarial multi-session histories against the real iodined; privileged effects identified at the process boundary and by unique packet ids, plus users[] snapshot diffs at every select()",
@@ -20,10 +20,10 @@ CHECKS = {
     "C04": (A, "4.4", "differential monitor (same seeded time-scripted scenario with and without spoofed requests; victim-visible observables compared) + offline history monitors for routing by tunnel address, slot takeover and expiry over adversarial multi-session histories (incl. histories in which the server's wall clock is set back)",
             "held on every executed pair and history: every request naming the victim's userid from a foreign address refused and without effect on the packets delivered to the victim, its session row, its transfer state and the server's tun writes; packets for address A delivered only to the logged-in holder of A; no VACK for a slot with an accepted message < 60 s earlier; no service after > 60 s of silence",
             "observables are compared at a granularity insensitive to when a datagram wakes the server inside its 20 ms send-real-soon window; behaviour at exactly 60 s is not asserted; a correct raw login from another address legitimately rebinds"),
-    "C05": (A, "4.5", "ASan/UBSan inside the real iodined + structural invariants of the users[] table evaluated by the shim at every select() + watchdog + health probe under structure-aware hostile datagram generators, never-ending fragment streams, exhausted slot pool and failing tun reads, plus ordinary multi-session/tunnel traffic and heap-watch runs (allocated bytes at every select()); a share of the scenarios is repeated with a non-sanitized build under valgrind memcheck (uninitialised values); thorough tier: the forwarded-query table under the same sanitizers through one history of 2^32+2^16 queries",
+    "C05": (A, "4.5", "ASan/UBSan inside the real iodined + structural invariants of the users[] table evaluated by the shim at every select() + watchdog + health probe under structure-aware hostile datagram generators, never-ending fragment streams, exhausted slot pool and failing tun reads, plus ordinary multi-session/tunnel traffic and heap-watch runs (allocated bytes at every select()); a share of the scenarios is repeated with a non-sanitized build under valgrind memcheck (uninitialised values); a fifth of the servers run with -D / -DD; thorough tier: the forwarded-query table under the same sanitizers through one history of 2^32+2^16 queries",
             "no sanitizer report, exit or stall on any executed hostile input sequence (8 generator classes x 11 pre-attack session states x server options), and a session established before the attack still moved a frame each way afterwards",
             "a clean sanitizer run is not memory safety (intra-object / non-adjacent overflows invisible); only executed paths are judged; GCC-defined signed '<<' (shift-base) is not counted as UB"),
-    "C08": (B, "4.8", "real client name builders -> strict name checker -> real server dispatcher in one process (statics reached by #include), over the full (L, domain length, codec) grid",
+    "C08": (B, "4.8", "real client name builders -> strict name checker -> real server dispatcher in one process (statics reached by #include), over the full (L, domain length, codec) grid; Engine A: every name the real client emits with -M L, incl. on paths that answer no fragment-size probe",
             "held on every generated name: thorough tier covers every (L 100..255, domain length, codec) triple; legality/length/suffix checked by an independent label walker, extraction compared with payload[:reported]",
             "domains, payload contents and user slots are seeded samples per triple; login needs 31 Base32 chars and is judged as prefix-only when the name budget is smaller"),
     "C09": (B, "4.9", "real server reply writer -> real client reply reader in one process (also in the form a CNAME-chasing resolver hands answers on), every payload length, prefix/monotonicity/floor oracle plus a committed table of lengths known to fit each answer format; Engine A: the real client's own autoprobe on a direct path must end where that table says its search ends; ASan on exact-size buffers",
@@ -38,7 +38,7 @@ CHECKS = {
     "C10": (A, "4.10", "online strict RFC 1035 parser + echo/aux oracle on every datagram emitted at the process boundary, incl. a reply-size sweep (one fragment-size probe per size 2..1400, thorough 2..2400, for every record type x downstream codec)",
             "held on every DNS-mode datagram the real programs emitted in the executed scenarios (model-client sessions over all query types/codecs/fragment sizes and real-client tunnel runs)",
             "strict parser written from RFC 1035 (simnet/dnsstrict.py); queries with '.'/NUL inside labels or malformed queries are outside the echo rule"),
-    "C11": (A, "4.11", "end-to-end monitor: real client through a transforming relay (member of the property's product family) to the real server; handshake completion within a virtual-time bound, then C02's exactly-once/in-order sequence monitor on packets sent through the same relay",
+    "C11": (A, "4.11", "end-to-end monitor: real client through a transforming relay (member of the property's product family) to the real server; handshake completion within a virtual-time bound, then C02's exactly-once/in-order sequence monitor on packets sent through the same relay, incl. a downstream length sweep (one-fragment packets of every compressed length up to the negotiated fragment size)",
             "held on every executed family member (all single-axis corners + seeded members of the full product, autodetected and with one forced -T/-O the path can carry): autodetection completed, and after every completed handshake 12 packets each way were delivered exactly once in order - except the recorded known finding",
             "liveness restated as bounded progress (300 virtual s handshake, 120 s delivery); forced options the path cannot carry are recorded but not judged; NULL/PRIVATE RDATA is relayed opaque (the family transforms names and text)"),
     "C12": (B, "4.12", "differential monitor over receive-buffer residues: (B) same datagram + 6 different stale-buffer contents through the tree's dns_decode(); (A) whole-program runs of the real server and client under 6 residue policies of the simulated recv(), complete output traces compared",
@@ -62,7 +62,7 @@ CHECKS = {
     "C18": (B, "4.18", "enumeration of (netmask, server position) with pool invariants, a reference lookup under a wrapped clock (also stepped backwards), and a session history (slots handed out, logged in, expired, recycled) through find_available_user(); plus a boundary monitor on the real iodined: the addresses its login replies tell the clients vs its table vs where packets for those addresses go, again after more than a minute of DNS pings / upstream data / raw data only / raw pings / silence, and at the 60 s boundary after the server has been idle (users[] snapshot)",
             "exhaustive over all host positions for /20../30 (quick) and /16../30 (thorough), boundary + sampled positions for /8../15; lookup compared with the reference 'live logged-in owner'",
             "behaviour at exactly 60 s of silence is not asserted"),
-    "C19": (B, "4.19", "differential test against an independent MD5 (Python hashlib) incl. bit-flip sensitivity; plus wire-level monitors of the real client (password from -P / environment / standard input; login and every raw-login datagram, which raw-login reply it accepts) against a model server and of the real server (sessions succeeding each other on a slot, repeated raw logins, logins arriving 6-50 s after the version handshake with bystanders in between)",
+    "C19": (B, "4.19", "differential test against an independent MD5 (Python hashlib) incl. bit-flip sensitivity; plus wire-level monitors of the real client (password from -P / environment / standard input; login and every raw-login datagram, which raw-login reply it accepts) against a model server and of the real server (sessions succeeding each other on a slot, repeated raw logins, logins arriving 6-50 s after the version handshake with bystanders in between, repeats of an accepted login with a wrong response); the real client's every login datagram - also after BADIP / LNAK / lost answers and a second version handshake - judged against the challenge it was given last",
             "held on all generated (password, challenge) cases: every length 0..40 x boundary challenges, random cases, single-bit sensitivity, insensitivity to bytes beyond 32 and to output-buffer contents",
             "hashlib MD5 is the oracle; wire-level use of challenge+1/-1 is observed in Engine A runs"),
     "C20": (A, "4.20", "socket-boundary monitor on iodined -b (forward rule, reply-routing rule against a reference window of the 16 most recent forwarded queries) + exhaustive put/get enumeration of the table in a unit driver that #includes fw_query.c, which also runs one history of 2^28 (thorough: 2^32+2^16) forwarded queries; outages of the local DNS server (connect()/ICMP semantics of the simulated OS) with bursts waiting at a busy iodined",
